@@ -99,6 +99,50 @@ func (c *Ctx) ModGraph() *ModGraph {
 			}
 		}
 	}
+	// bound-method and thunk wrappers (`s.method` used as a value) are synthetic and not among the module's source functions:
+	// give each one reached above its own out-edges (the wrapped method)
+	{
+		src := map[*ssa.Function]bool{}
+		for _, fn := range c.P.ModuleFuncs() {
+			src[fn] = true
+		}
+		var work []*ssa.Function
+		for to := range g.In {
+			if !src[to] && to.Synthetic != "" && to.Blocks != nil {
+				work = append(work, to)
+			}
+		}
+		sort.Slice(work, func(i, j int) bool { return work[i].String() < work[j].String() })
+		done := map[*ssa.Function]bool{}
+		for len(work) > 0 {
+			w := work[0]
+			work = work[1:]
+			if done[w] {
+				continue
+			}
+			done[w] = true
+			for _, b := range w.Blocks {
+				for _, ins := range b.Instrs {
+					ci, ok := ins.(ssa.CallInstruction)
+					if !ok {
+						continue
+					}
+					var callees []*ssa.Function
+					if f := ci.Common().StaticCallee(); f != nil {
+						callees = append(callees, f)
+					} else if ci.Common().IsInvoke() {
+						callees = c.P.Callees(ci)
+					}
+					for _, f := range callees {
+						add(w, f, ins)
+						if !src[f] && f.Synthetic != "" && f.Blocks != nil {
+							work = append(work, f)
+						}
+					}
+				}
+			}
+		}
+	}
 	// interface method sets handed to third-party registries (gRPC): a MakeInterface of a module type into a
 	// non-module interface makes all its methods callable by the outside world; model as edges from the registering function.
 	for _, fn := range c.P.ModuleFuncs() {
